@@ -425,7 +425,7 @@ func c09Worker(w *W) {
 		st.useJSON = true
 		specials := []byte{0x00, 0x01, 0x08, 0x09, 0x0a, 0x0d, 0x1e, 0x1f, 0x22, 0x5c, 0x7f, 0x80, 0xbf, 0xc0, 0xc2, 0xe0, 0xed, 0xf0, 0xf4, 0xf5, 0xff}
 		multi := []string{"é", "中", "😀", "\xe2\x82", "\xed\xa0\x80", "\xf0\x9f", "\xef\xbf\xbd", "\u2028"}
-		lens := []int{1, 2, 7, 8, 9, 15, 16, 17, 23, 24, 25, 31, 32, 33, 40}
+		lens := []int{1, 2, 7, 8, 9, 15, 16, 17, 23, 24, 25, 31, 32, 33, 40, 47, 48, 49, 55, 56, 57, 58, 59, 60, 61, 62, 63, 64, 65, 66, 71, 72, 73, 80, 96, 127, 128, 129, 130, 255, 256, 257, 300}
 		k := 0
 		for _, L := range lens {
 			base := make([]byte, L)
@@ -470,7 +470,7 @@ func c09Worker(w *W) {
 			}
 		}
 		w.Res.DistinctCount = st.nontriv
-		w.Sample(map[string]any{"space": "plain ASCII strings of 15 lengths (1..40) with one of 21 special bytes / 8 multi-byte sequences at every position, plus a second special byte at +1,+7,+8,end"})
+		w.Sample(map[string]any{"space": "plain ASCII strings of 43 lengths (1..300, dense around 8/16/32/64/128/256) with one of 21 special bytes / 8 multi-byte sequences at every position, plus a second special byte at +1,+7,+8,end"})
 	case "layoutexh":
 		// every string of length <= 2 as key and value through both encoders
 		for a := 0; a < 256; a++ {
@@ -553,7 +553,7 @@ func init() {
 		ID: "C09", Level: "exploration", MinDistinct: 1000,
 		Rule: "inputs: (a) every byte string of length <= 3 (quick) / <= 4 (thorough) over the full byte alphabet, enumerated exhaustively and sharded by first byte; " +
 			"(b) every string of length 4..6 (quick: 4..5) over the 16-symbol UTF-8 boundary alphabet; (c) seeded random strings of length 7..4096 (raw bytes, boundary-heavy, printable+noise, valid-unicode+noise); " +
-			"(d) every string of length 1..2 as key and value through the JSON and text encoders; (e) plain ASCII strings of 15 lengths up to 40 with one or two special bytes / multi-byte sequences injected at every position (also as keys and values), against scanners that look at more than 4 bytes at a time. Non-trivial = the escaped output differs from the input (an escape, a replacement or a multi-byte decision was needed); " +
+			"(d) every string of length 1..2 as key and value through the JSON and text encoders; (e) plain ASCII strings of 43 lengths up to 300 (dense around powers of two) with one or two special bytes / multi-byte sequences injected at every position (also as keys and values), against scanners that look at more than 4 bytes at a time. Non-trivial = the escaped output differs from the input (an escape, a replacement or a multi-byte decision was needed); " +
 			"distinct_nontrivial = number of non-trivial inputs in the disjoint enumerated spaces (a),(b) + number of distinct byte-class masks seen among (c).",
 		Assumptions: []string{
 			"the escaper is memoryless with <= 4 bytes of look-ahead, so the exhaustive window determines its behaviour on longer strings (argument, not machine-checked; random long strings sample it)",
